@@ -1038,10 +1038,12 @@ void run_inputs(report_t& r, const int k, const bool thin_third)
     lat.axis("column_map", static_cast<uint64_t>(nmaps),
              k == 1 ? "[\"continuous\",\"categorical\"]"
                     : "[\"all continuous\",\"first categorical\",\"alternating (continuous,categorical,continuous)\"]");
+    // triples: thinned list of target specifications (one target, two targets, categorical target)
+    const std::vector<size_t> tsel = thin_third ? std::vector<size_t>{0, 3, 4} : std::vector<size_t>{0, 1, 2, 3, 4};
     {
         std::vector<std::string> t;
-        for (const auto& s : target_specs()) t.emplace_back(s.text);
-        lat.axis("target_spec", target_specs().size(), jarr_str(t));
+        for (const auto i : tsel) t.emplace_back(target_specs()[i].text);
+        lat.axis("target_spec", tsel.size(), jarr_str(t));
     }
     lat.describe(r, tag + ".");
 
@@ -1058,7 +1060,7 @@ void run_inputs(report_t& r, const int k, const bool thin_third)
                           c.in.push_back(column_values(spec, c.n));
                       }
                       c.cat           = column_map(static_cast<int>(d[static_cast<size_t>(1 + k)]), k);
-                      const auto& ts  = target_specs()[d[static_cast<size_t>(2 + k)]];
+                      const auto& ts  = target_specs()[tsel[d[static_cast<size_t>(2 + k)]]];
                       c.target_sclass = ts.sclass;
                       for (const auto& spec : ts.cols)
                       {
